@@ -126,6 +126,31 @@ func ownerRevisions(f *lib.Flags, res *lib.Result) {
 				rescorr.Case{Names: sn, Texts: st, Extra: map[string]string{"variant": "split", "id": id, "latest": "m@" + revs[k-1]}})
 		}
 	}
+	// only the OLDER revision includes submodules (nested: s includes t; definitions of t are used in
+	// s and in the owner); the latest revision dropped them: what the older revision gets through its
+	// includes must not depend on the latest revision's include closure
+	for vi, v := range []struct{ inT, inS, inOwner string }{
+		{"typedef tt { type int8; }", "leaf viaS { type tt; }", "leaf viaOwner { type tt; }"},
+		{"grouping tg { leaf gl { type string; } }", "container cs { uses tg; }", "container co { uses tg; }"},
+		{"identity tid;", "identity sid { base tid; } leaf ls { type identityref { base tid; } }", "leaf lo { type identityref { base tid; } }"},
+		{"typedef tt { type string; } grouping tg { leaf gl { type tt; } }", "uses tg;", "leaf lo2 { type tt; }"},
+	} {
+		un := []string{"m@2019-01-01.yang", "m@2021-06-01.yang"}
+		ut := []string{fmt.Sprintf("module m { namespace \"urn:m\"; prefix m; revision 2019-01-01; %s %s %s }", v.inT, v.inS, v.inOwner),
+			"module m { namespace \"urn:m\"; prefix m; revision 2021-06-01; leaf only-new { type string; } }"}
+		sn := []string{"m@2019-01-01.yang", "m@2021-06-01.yang", "s.yang", "t.yang"}
+		st := []string{fmt.Sprintf("module m { namespace \"urn:m\"; prefix m; include s; include t; revision 2019-01-01; %s }", v.inOwner), ut[1],
+			"submodule s { belongs-to m { prefix m; } include t; " + v.inS + " }", "submodule t { belongs-to m { prefix m; } " + v.inT + " }"}
+		id := fmt.Sprintf("older-revision-includes v=%d", vi)
+		for _, ord := range [][]int{{0, 1, 2, 3}, {1, 0, 3, 2}, {3, 2, 1, 0}} {
+			pn, pt := make([]string, 4), make([]string, 4)
+			for a, b := range ord {
+				pn[a], pt[a] = sn[b], st[b]
+			}
+			cases = append(cases, rescorr.Case{Names: un, Texts: ut, Extra: map[string]string{"variant": "unsplit", "id": id}},
+				rescorr.Case{Names: pn, Texts: pt, Extra: map[string]string{"variant": "split", "id": id, "latest": "m@2021-06-01", "subs": "s,t"}})
+		}
+	}
 	outs := rescorr.RunAll(cases, f)
 	var n int64
 	for i := 0; i+1 < len(outs); i += 2 {
@@ -142,7 +167,7 @@ func ownerRevisions(f *lib.Flags, res *lib.Result) {
 		// the submodule's own tree has no counterpart in the unsplit set
 		var gs []string
 		for _, r := range stripPos(lib.Project(sp.Go.Dump, keys, true)) {
-			if fs := strings.Fields(r); len(fs) > 1 && fs[0] == "N" && fs[1] == lib.HexS("s") {
+			if fs := strings.Fields(r); len(fs) > 1 && fs[0] == "N" && (fs[1] == lib.HexS("s") || fs[1] == lib.HexS("t")) {
 				continue
 			}
 			gs = append(gs, r)
